@@ -181,6 +181,9 @@ def _fmt_obs(case) -> str:
     name = case["fmt"]
     spec = [f for f in formats_for(case["key"]["type"]) if f[0] == name][0]
     _, ttype, kw, ftype, public = spec
+    if "comment" in case:                 # explicit comment (its length decides the padding of openssh-key-v1)
+        kw = dict(kw)
+        kw["comment"] = bytes.fromhex(case["comment"])
     if "pp" in case:                      # explicit passphrase: {"b": hex} = bytes, {"s": text} = str
         kw = dict(kw)
         kw["passphrase"] = bytes.fromhex(case["pp"]["b"]) if "b" in case["pp"] else case["pp"]["s"]
@@ -372,7 +375,9 @@ def oracle(case, obs):
             return None
         kd = case["key"]
         tag = f"keyfmt-{kd['type']}-{case['fmt']}-{obs}"
-        if case.get("via"):
+        if "comment" in case:
+            tag = f"keyfmt-{case['fmt']}-comment-length-{obs.split(':', 1)[1]}"
+        elif case.get("via"):
             tag = f"keyfmt-{case['fmt']}-via-{case['via']}-{obs.split(':', 1)[1]}"
         elif "pp" in case:
             pp = bytes.fromhex(case["pp"]["b"]) if "b" in case["pp"] else case["pp"]["s"].encode("utf-8")
@@ -505,6 +510,17 @@ def gen(rng, tier):
     for kd in pool:
         bytype.setdefault(kd["type"], []).append(kd)
     small = [bytype[t][0] for t in ("Ed25519", "RSA", "EC", "DSA")] + [bytype["EC"][-1], bytype["Ed25519"][-1]]
+    # openssh-key-v1 pads check values + private blob + comment to the cipher block (16 encrypted, 8 plain) with
+    # 1,2,3,...; the comment length decides how many padding bytes there are - possibly NONE.  Unencrypted: every
+    # comment length 0..16 for every key type; encrypted (bcrypt, ~1 s each): the lengths around the one that leaves
+    # no padding in quick, every length 0..16 in thorough.
+    for kd in [bytype[t][0] for t in ("Ed25519", "RSA", "EC", "DSA")] + ([bytype["EC"][-1]] if tier != "quick" else []):
+        blob_len = len(build_key(kd).privateBlob())
+        none_left = (-(8 + blob_len + 4)) % 16
+        for L in range(17):
+            cases.append({"kind": "keyfmt", "key": kd, "fmt": "openssh-v1-comment", "comment": (b"c" * L).hex()})
+            if tier != "quick" or (L - none_left) % 16 in (15, 0, 1):
+                cases.append({"kind": "keyfmt", "key": kd, "fmt": "openssh-v1-pass", "comment": (b"c" * L).hex()})
     # the deprecated `extra` argument as another way to hand over the same comment / passphrase, as str and bytes
     for i, kd in enumerate(small):
         for via in ("extra-str", "extra-bytes"):
@@ -580,6 +596,8 @@ def describe(case):
             d["passphrase"] = case["pp"]
         if "via" in case:
             d["via"] = case["via"]
+        if "comment" in case:
+            d["comment_length"] = len(case["comment"]) // 2
         if "fmt" in case:
             d["fmt"] = case["fmt"]
         if kd["type"] == "RSA":
@@ -643,7 +661,8 @@ SPEC = Spec(
          "p<q and p>q, DSA 1024/2048 over fixed parameter sets, ECDSA P-256/384/521 incl. small scalars and "
          "leading-zero coordinates, Ed25519 — public blob vs the model; keyfmt: every key x every format that "
          "supports its type (blob, private blob, public OpenSSH +/- comment, OpenSSH v1 +/- comment +/- passphrase, "
-         "PEM +/- passphrase, LSH public/private, agent v3; comment / passphrase also handed over through the deprecated "
+         "PEM +/- passphrase, LSH public/private, agent v3; openssh-v1 with comments of every length 0..16 (plain) and around the "
+         "no-padding length (encrypted; all lengths in thorough); comment / passphrase also handed over through the deprecated "
          "`extra` argument as str and as bytes: same serialisation for comments, same round trip): equal key, same publicness, same MD5 and SHA256 "
          "fingerprints, same public part. non-trivial = anything but an empty ns/mp list",
     trusted=[
